@@ -73,6 +73,16 @@ impl DeliveryMon {
         DeliveryMon { timeout, st: Vec::new(), by_bytes: HashMap::new(), indexed: 0, pending: HashMap::new(), last_arrived: HashMap::new(), last_dup_at: HashMap::new(), routed_data: 0, links_with_data: Default::default(), popped_unexplained: Default::default() }
     }
 
+    /// C19 runs: the link was removed by an IP-list reload; what was still queued on it is gone
+    /// (reload is outside C01's quantifier).
+    pub fn link_removed(&mut self, conn_id: u64) {
+        if let Some(q) = self.pending.remove(&conn_id) {
+            for k in q {
+                self.st[k].exempt = true;
+            }
+        }
+    }
+
     fn index(&mut self, inj: &[Injected]) {
         while self.indexed < inj.len() {
             self.by_bytes.insert(inj[self.indexed].bytes.clone(), self.indexed);
